@@ -30,8 +30,8 @@ from ..realise import fsdoc
 SPEC = os.path.join(SPECS, "fs", "MC_FsConfine.tla")
 TRACE_SPEC = os.path.join(SPECS, "fs", "FsTrace.tla")
 INVARIANTS = ["ReadsConfined", "WritesConfined", "NeverOverwrite", "DistinctNames", "BlameSound", "LookupBounded"]
-BOUNDS = {"quick": {"cmap": 3, "image": 2, "image_cases": "AllImageCases", "image_more": None, "image_deep": None},
-          "thorough": {"cmap": 4, "image": 2, "image_cases": "AllImageCases", "image_more": 3, "image_deep": 4}}
+BOUNDS = {"quick": {"cmap": 3, "image": 2, "image_cases": "AllImageCases", "image_more": None, "image_deep": None, "image_ext": 1},
+          "thorough": {"cmap": 4, "image": 2, "image_cases": "AllImageCases", "image_more": 3, "image_deep": 4, "image_ext": 2}}
 BATCH = 16
 EXT = ".bmp"
 CODED_DEV = []
@@ -144,6 +144,9 @@ def direction_a(ck, dev):
                         "ImageCases": "<- NoImageCases"}, ["AStart", "ATryDir"]),
               ("image", {"MaxSeg": 0, "MaxSegImage": b["image"], "Names": "<- ImageNames", "CMapSites": "<- NoSites",
                          "ImageCases": "<- " + b["image_cases"]}, ["AStart", "AExport"])]
+    # every way the image dictionary's entries can fill the extension, XObject and inline images
+    spaces.append(("imageext", {"MaxSeg": 0, "MaxSegImage": b["image_ext"], "Names": "<- ImageNamesRel", "CMapSites": "<- NoSites",
+                                "ImageCases": "<- ExtImageCases"}, ["AStart", "AExport"]))
     if b["image_more"]:
         spaces.append(("imagemore", {"MaxSeg": 0, "MaxSegImage": b["image_more"], "Names": "<- ImageNames", "CMapSites": "<- NoSites",
                                      "ImageCases": "<- HalfImageCases"}, ["AStart", "AExport"]))
@@ -181,7 +184,7 @@ def direction_a(ck, dev):
                 r = json.loads(line)
                 n_emitted += 1
                 if r["s"] == "image":
-                    k = (r["n"]["abs"], tuple(r["n"]["segs"]), tuple(sorted(r["ic"]["init"])), r["ic"]["draws"])
+                    k = (r["n"]["abs"], tuple(r["n"]["segs"]), tuple(sorted(r["ic"]["init"])), r["ic"]["draws"], r["ic"]["ext"], r["ic"]["src"])
                     if k not in seen_img:
                         seen_img.add(k)
                         image_cases.append(r)
@@ -306,7 +309,7 @@ def image_job(jid, r):
 
     def fin(j):
         text = image_text(r, j["root"])
-        pdf, _ = fsdoc.image_doc(text, draws)
+        pdf, _ = fsdoc.image_doc(text, draws, ext=r["ic"].get("ext", "bmp"), src=r["ic"].get("src", "xobj"))
         j["pdf"] = base64.b64encode(pdf).decode()
         pre = []
         for k in init:
@@ -342,9 +345,15 @@ def judge_image(ck, r, res):
         base = text.split("/")[-1] if r["n"]["segs"] or r["n"]["abs"] else ""
     else:
         base = fsdoc.sanitised(text)                 # the intended design: separators and NUL replaced
+    ext_kind, src = r["ic"].get("ext", "bmp"), r["ic"].get("src", "xobj")
+    ext_text = fsdoc.IMAGE_VARIANTS[ext_kind][1]
     pred_created, pred_above = set(), 0
     for c in r["cr"]:
-        fn = base + ("" if c["k"] < 0 else ".%d" % c["k"]) + EXT
+        if ext_text is None:
+            # an ill-typed entry in the extension (only reachable with ExtFieldsUnvalidated): the text after the last separator
+            fn = {"illclean": base + ".[1, 2].1x1.img", "lead1": "'pwned'.1x1.img"}.get(ext_kind, "?")
+        else:
+            fn = base + ("" if c["k"] < 0 else ".%d" % c["k"]) + ext_text
         if c["dir"] == ["@above"]:
             pred_above += 1
         else:
@@ -357,11 +366,19 @@ def judge_image(ck, r, res):
     if blocked:
         # the sandbox stopped the first write above the scratch root (and with it the extraction)
         same = set(created) <= pred_created and pred_above >= 1
+    elif src == "inline":
+        # the name of an inline image is not the document's (str(id(obj))): compare directory, extension and number
+        tails = sorted(os.path.join(os.path.dirname(p), os.path.basename(p)[len(base):]) for p in pred_created)
+        got = sorted(os.path.join(os.path.dirname(c), "." + os.path.basename(c).split(".", 1)[1] if "." in os.path.basename(c) else c)
+                     for c in created)
+        same = len(created) == len(pred_created) and pred_above == 0 and (real_err or None) == pred_err \
+            and [os.path.dirname(x) for x in got] == [os.path.dirname(x) for x in tails]
     else:
         same = set(created) == pred_created and pred_above == 0 and (real_err or None) == pred_err
     hostile = r["n"]["abs"] or any(s in ("dd", "e", "nul", "long", "dec", "sub", "d", "sib", "ndd", "n0") for s in r["n"]["segs"]) or len(r["n"]["segs"]) != 1
-    ck.case(1, ("image", r["n"]["abs"], tuple(r["n"]["segs"]), tuple(init), draws) if hostile or init else None)
-    case = {"site": "image", "name": r["n"], "init": init, "draws": draws, "created": created, "modified": res["modified"],
+    hostile = hostile or ext_kind not in ("bmp", "raw")
+    ck.case(1, ("image", r["n"]["abs"], tuple(r["n"]["segs"]), tuple(init), draws, ext_kind, src) if hostile or init else None)
+    case = {"site": "image", "name": r["n"], "init": init, "draws": draws, "ext": ext_kind, "src": src, "created": created, "modified": res["modified"],
             "deleted": res["deleted"], "blocked_outside_scratch": [e.get("path") for e in blocked], "exception": res["exc"],
             "model_created": sorted(pred_created), "model_error": pred_err}
     if len(ck.samples) < 6 and created and hostile:
@@ -369,7 +386,7 @@ def judge_image(ck, r, res):
                    "files_created": created})
     if outside or blocked:
         if same and r["bl"]:
-            report(ck, "dev:ImageNameUnconfined", "image named %r exported to %s" % (text.replace(root, "$ROOT")[:60], (outside or ["above the scratch root"])[0]), case)
+            report(ck, "dev:" + "+".join(sorted(r["bl"])), "image named %r exported to %s" % (text.replace(root, "$ROOT")[:60], (outside or ["above the scratch root"])[0]), case)
         else:
             report(ck, "image:write-outside", "image named %r: file created outside the output directory: %s"
                          % (text.replace(root, "$ROOT")[:60], outside or blocked), case)
@@ -516,7 +533,8 @@ def replay(path):
     ck = Check("C15-replay")
     try:
         if case.get("site") == "image":
-            r = {"n": case["name"], "ic": {"init": case["init"], "draws": case["draws"]}, "cr": [], "er": "none", "bl": []}
+            r = {"n": case["name"], "ic": {"init": case["init"], "draws": case["draws"], "ext": case.get("ext", "bmp"),
+                                           "src": case.get("src", "xobj")}, "cr": [], "er": "none", "bl": []}
             res, meta = run_workers(ck, [image_job(0, r)], "replay", nproc=1)
             out = res[0]
             print("created:", out["created"], "modified:", out["modified"], "exception:", out["exc"],
